@@ -28,6 +28,8 @@ type genParser struct {
 	Receiver  string          `json:"receiver"`
 	Has       map[string]bool `json:"has"`
 	Rejected  string          `json:"rejected,omitempty"`
+	Twin      string          `json:"twin,omitempty"`      // name of the clock twin, if one was built
+	ClockFor  string          `json:"clock_for,omitempty"` // this parser is the clock twin of that one
 	// GrammarVar is the package-level variable holding the grammar value in the
 	// generated file, found by its shape (var X = &T{ rules: ...), not by name.
 	GrammarVar string `json:"grammar_var,omitempty"`
